@@ -478,7 +478,114 @@ def solve(eng, ob: Obligation, timeout_ms=30000, extra_axioms=(), seed=0, mbqi=F
     return status, dt, reason, model, s
 
 
+SPEC_WORDS = {"old", "at_entry", "implies", "result", "self", "cls", "all", "any", "sum", "len", "range", "min", "max", "abs",
+              "True", "False", "None", "int", "bool", "isinstance", "allkeys", "same", "_i", "_n", "_it", "str", "bytes",
+              "float", "list", "tuple", "enumerate", "sorted", "type"}
+
+
+def contract_local_names(c):
+    """free names used by the parts of a contract that talk about LOCALS of the body (loop invariants, declared
+    local types), bound variables of generators excluded"""
+    names = set(c.locals)
+    for spec in c.loops.values():
+        for _, text in spec.get("invariant", []):
+            try:
+                tree = ast.parse(text, mode="eval")
+            except SyntaxError:
+                continue
+            bound = set()
+            for n in ast.walk(tree):
+                if isinstance(n, ast.comprehension):
+                    for t in ast.walk(n.target):
+                        if isinstance(t, ast.Name):
+                            bound.add(t.id)
+            for n in ast.walk(tree):
+                if isinstance(n, ast.Name) and n.id not in bound:
+                    names.add(n.id)
+    return names
+
+
+def function_locals(node):
+    out = {a.arg for a in node.args.args + node.args.kwonlyargs}
+    for n in ast.walk(node):
+        if isinstance(n, ast.Name) and isinstance(n.ctx, ast.Store):
+            out.add(n.id)
+    return out
+
+
+def missing_locals(eng, c, fi):
+    """locals the contract's invariants mention that the body no longer has (a renamed local), and the body's locals
+    the contract never mentions (the candidates for what they are called now)"""
+    if fi is None or c.kind == "lemma":
+        return [], []
+    have = function_locals(fi.node)
+    known = set(have) | SPEC_WORDS | set(eng.spec_funcs) | {n for n, _ in c.let} | set(c.ghost) | set(eng.repo.classes) \
+        | set(eng.repo.consts.get(fi.module, {})) | set(eng.repo.imports.get(fi.module, {}))
+    from .sym import CONST_NAMES, EXC_NAMES
+    known |= set(CONST_NAMES) | set(EXC_NAMES)
+    used = contract_local_names(c)
+    missing = sorted(n for n in used if n not in known)
+    params = {a.arg for a in fi.node.args.args}
+    cands = sorted(n for n in have if n not in used and n not in params and not n.startswith("_"))
+    return missing, cands
+
+
+class _Rename(ast.NodeTransformer):
+    def __init__(self, m):
+        self.m = m
+
+    def visit_Name(self, n):
+        return ast.copy_location(ast.Name(id=self.m.get(n.id, n.id), ctx=n.ctx), n)
+
+
+def renamed_contract(c, mapping):
+    import copy
+    c2 = copy.copy(c)
+    c2.loops = {}
+    for k, spec in c.loops.items():
+        sp = dict(spec)
+        sp["invariant"] = [(nm, ast.unparse(_Rename(mapping).visit(ast.parse(text, mode="eval"))))
+                           for nm, text in spec.get("invariant", [])]
+        c2.loops[k] = sp
+    c2.locals = {mapping.get(k, k): v for k, v in c.locals.items()}
+    return c2
+
+
 def verify_one(eng, key, ctx=None, timeout_ms=30000, alias=None):
+    """verify contract `key`.  If its loop invariants mention locals the body no longer has (a harmless renaming of a
+    local), the invariants are tried under each assignment of the missing names to unmentioned locals of the body; an
+    assignment is accepted only if every obligation is then PROVED (the guess is checked, so this cannot make a wrong
+    body verify with a wrong invariant: any invariant that is proved inductive and strong enough is a valid one)."""
+    if key in LEMMAS or key not in CONTRACTS:
+        return _verify_with(eng, key, ctx, timeout_ms, alias, None)
+    c = CONTRACTS[key]
+    fi = find_impl(eng.repo, c, ctx)
+    missing, cands = missing_locals(eng, c, fi)
+    if not missing:
+        return _verify_with(eng, key, ctx, timeout_ms, alias, None)
+    import itertools
+    tried = 0
+    if len(missing) <= 3 and len(cands) >= len(missing):
+        for perm in itertools.permutations(cands, len(missing)):
+            tried += 1
+            if tried > 24:
+                break
+            mapping = dict(zip(missing, perm))
+            r = _verify_with(eng, key, ctx, min(timeout_ms, 10000), alias, renamed_contract(c, mapping))
+            if not r.unsupported and not r.error and r.obligations and all(o["status"] == "proved" for o in r.obligations):
+                r.lib_used = sorted(set(r.lib_used) | {f"contract of {key}: invariants written for locals {missing} "
+                                                       f"applied to the locals {list(perm)} of the current body "
+                                                       "(renamed locals; accepted because every obligation is proved)"})
+                return r
+    res = FuncResult(key, ctx)
+    if fi is not None:
+        res.file, res.span = fi.path, fi.span
+    res.unsupported = (f"the loop invariants of the contract mention locals {missing} that the body no longer has, and no "
+                       f"assignment to its other locals {cands} makes the proof go through ({tried} tried)")
+    return res
+
+
+def _verify_with(eng, key, ctx, timeout_ms, alias, override):
     variant = None
     if isinstance(alias, dict):
         variant, alias = alias, None
@@ -495,7 +602,7 @@ def verify_one(eng, key, ctx=None, timeout_ms=30000, alias=None):
         lemma_node = ast.parse(lm.source).body[0]
         fi = None
     else:
-        c = CONTRACTS[key]
+        c = override or CONTRACTS[key]
         fi = find_impl(eng.repo, c, ctx)
         if fi is None:
             res.unsupported = f"function {key} (receiver {ctx}) not found in the working tree"
